@@ -75,7 +75,7 @@ def run_lost(ck, mons, seed, x, kind, lost, tname, conf=None, retry=None):
             return
     k = 0
     seq = tick_seq(tname, rng)
-    t_end = sim.clock.t + 48
+    t_end = sim.clock.t + monitors.retransmission_budget() + 28
     delivered_any = False
     while sim.clock.t < t_end:
         for d in list(sim.net):
@@ -148,7 +148,7 @@ def run_partition(ck, mons, seed, name, k, dpd, dt, noise=False):
     T = sim.clock.t
     sim.net.clear()
     had = {e.name: bool(e.kernel.sad) for e in sim.eps.values()}
-    bound = dpd + 20 + 3 * dt
+    bound = dpd + monitors.retransmission_budget() + 3 * dt
     t_gone = {}
     junk = bytes(8) + b'\x11' * 8 + bytes([46, 0x20, 37, 0x08]) + (7).to_bytes(4, 'big') + (28).to_bytes(4, 'big')
     while sim.clock.t < T + bound + 2 * dt:
@@ -344,7 +344,8 @@ def run(ck):
     def mk():
         return [timers.TimerMonitor(ck), monitors.TableMonitor(ck), monitors.SadMonitor(ck)]
     n = 0
-    subsets = [frozenset(s) for r in range(5) for s in itertools.combinations(range(4), r)]
+    nt = timers.MAXR      # transmissions of one request before the IKE_SA gives up (library constant)
+    subsets = [frozenset(s) for r in range(nt + 1) for s in itertools.combinations(range(nt), r)]
     ticks = ['0.25', '1', '3', 'irregular']
     # (1) every request kind x role x lost subset x tick sequence
     for x in 'AB':
@@ -362,7 +363,7 @@ def run(ck):
                    ('acquire', 'B', CHILD_DH_MISMATCH, 'invalid_ke'), ('expire_soft', 'A', CHILD_DH_MISMATCH, 'invalid_ke'), ('rekey_ike', 'A', IKE_DH_MISMATCH, 'invalid_ke'),
                    ('rekey_ike', 'B', IKE_DH_MISMATCH, 'invalid_ke')]
     for kind, x, conf, retry in retry_cases:
-        for lost in (frozenset(), frozenset({0}), frozenset({0, 1}), frozenset({0, 1, 2}), frozenset({0, 1, 2, 3}), frozenset({1})):
+        for lost in (frozenset(), frozenset({0}), frozenset({0, 1}), frozenset({0, 1, 2}), frozenset(range(nt)), frozenset({1})):
             for tname in ('1', '0.25') if not thorough else ticks:
                 n += 1
                 if not ck.mine(n):
